@@ -1,7 +1,8 @@
 """C09 - concurrent external-data writing is schedule-independent, bounded and live.
 
 The shard drives a killable child process (``vfpy/c09_mon.py``) that performs real threaded
-``ir.save(..., external_data=..., max_workers=..., max_in_flight_bytes=...)`` calls on generated
+``ir.save(..., external_data=..., max_workers=..., max_in_flight_bytes=...)`` (or, for some
+single-file cases, ``external_data.convert_tensors_to_external``) calls on generated
 models whose initializers are monitor tensors, with seeded schedule injection.  Offline checkers
 over the recorded event log decide; hangs are diagnosed structurally by a watchdog in the child.
 """
@@ -20,11 +21,15 @@ import onnx_ir  # noqa: F401  (VF_REPO is honoured through PYTHONPATH; the child
 ID = "C09"
 LEVEL = "exploration"
 RULE = (
-    "case = one generated model (2-10 tensor objects, 2-16 initializers, an object may back several "
-    "initializers; sizes tiny..8000 B incl. several > budget) x max_workers 2-8 x max_in_flight_bytes "
-    "1..>total x single-file/sharded x alignment x 0-2 failing tensors (early/mid/late, "
+    "case = one generated model (2-12 tensor objects, 2-18 initializers, an object may back several "
+    "initializers; sizes 0 (zero-element tensors) and tiny..8000 B incl. several > budget) x entry point "
+    "(ir.save, with size_threshold_bytes=-1 when zero-byte tensors must be written, or "
+    "external_data.convert_tensors_to_external) x max_workers 2-16 x max_in_flight_bytes "
+    "1..>total x single-file/sharded (random shard limit, or a shard-by-shard plan mixing single-tensor "
+    "shards written by their driver with multi-tensor shards written by an inner pool, one object "
+    "starting several shards) x alignment x 0-2 failing tensors (early/mid/late, "
     "Exception/BaseException) or a failing callback x seeded delay profile; one "
-    "monitored threaded ir.save per case, judged against a serial ir.save of the same model. "
+    "monitored threaded save per case, judged against a serial save of the same model. "
     "Non-trivial = >=2 workers were between budget-acquire request and release at the same time "
     "(measured in the event log) and >=1 Condition.wait happened inside _ByteBudget.acquire. "
     "Distinct = distinct order of acquire-request/wait/ok/tensor-enter/exit/release/callback events."
@@ -60,6 +65,11 @@ def plan(tier: str) -> dict:
             "budget_snapshots": 2000 if quick else 40000,
             "callback_calls": 1000 if quick else 20000,
             "line_yields": 500 if quick else 10000,
+            # measured in the event log: a tensor object written both by a shard driver (one-tensor
+            # file) and by an inner pool (file whose callbacks came from >=2 threads) in one save
+            "saves_object_shared_by_driver_and_pool": 15 if quick else 300,
+            "saves_zero_byte_and_several_oversized": 40 if quick else 800,
+            "saves_api_convert": 50 if quick else 1000,
         },
         "min_nontrivial": 60 if quick else 1200,
         "params": {},
@@ -156,7 +166,8 @@ REQUEST_TIMEOUT_S = 75.0  # > HARD_SAVE_S of the child's own watchdog; only a ba
 
 def _summary(spec: dict) -> dict:
     return {
-        "mode": spec["mode"], "workers": spec["workers"], "max_in_flight_bytes": spec["budget"],
+        "mode": spec["mode"], "layout": spec.get("layout"), "api": spec.get("api"), "size_threshold_bytes": spec.get("threshold"),
+        "workers": spec["workers"], "max_in_flight_bytes": spec["budget"],
         "sizes": [spec["objs"][o]["size"] for o in spec["uses"]], "uses": spec["uses"],
         "max_shard": spec["max_shard"], "alignment": spec["alignment"], "fail": spec["fail"],
         "cb_fail": spec["cb_fail"], "profile": spec["profile"], "p_yield": spec["p_yield"],
@@ -167,6 +178,9 @@ def _deadlock_signature(res: dict) -> str:
     parked = res.get("parked_in") or ["?"]
     # threads waiting for a tensor lock or for futures are consequences of the one stuck in acquire
     where = "budget-acquire-never-granted" if "acquire" in parked else "parked-in=" + "+".join(parked)
+    if res.get("holder_parked"):
+        # a thread that holds a granted reservation is itself blocked on a lock
+        where += "|budget-held-while-blocked-at-" + "+".join(res["holder_parked"])
     return f"deadlock|{where}|{'after-injected-failure' if res.get('after_failure') else 'no-failure'}"
 
 
@@ -255,6 +269,13 @@ class Driver:
         ctx.count("line_yields", st["yields"])
         ctx.count("threads_seen", st["threads"])
         ctx.count("profile_" + spec["profile"])
+        ctx.count("saves_api_" + spec["api"])
+        ctx.count("saves_layout_planned", 1 if spec["layout"] == "planned" else 0)
+        ctx.count("saves_max_workers_over_8", 1 if spec["workers"] > 8 else 0)
+        ctx.count("zero_byte_tensor_evaluations", st["zero_byte_evals"])
+        ctx.count("saves_zero_byte_and_several_oversized", 1 if st["zero_byte_evals"] and st["oversized"] > 1 else 0)
+        ctx.count("saves_driver_and_pool_writers", st["driver_and_pool"])
+        ctx.count("saves_object_shared_by_driver_and_pool", st["obj_driver_and_pool"])
         ctx.count(f"max_busy_{min(st['max_busy'], 8)}")
         if st["cap_mismatch"]:
             ctx.count("report_only_budget_capacity_differs_from_option", st["cap_mismatch"])
